@@ -138,7 +138,7 @@ theorem struct_cycle (sc : Scripts) (w : World) (hs : Safe w) :
   have hb : structStep (structStep {} (Ev.begin (w.cycle + 1))) (Ev.poll (w.cycle + 1) (!hasPending w)) =
       { cyc := some (w.cycle + 1), served := [], bad := [] } := rfl
   rw [hb, hio]
-  obtain ⟨c1, c2⟩ := struct_cmdLoop sc (connectedUsers w + 1) (cmdPhaseStart w) h1
+  obtain ⟨c1, c2⟩ := struct_cmdLoop sc (NV.Gen.C12.loopCalls (connectedUsers w) w.maxUsers) (cmdPhaseStart w) h1
     { cyc := some (w.cycle + 1), served := [], bad := [] } (w.cycle + 1) rfl (by intro u hu; cases hu)
   unfold cmdPhaseStart at c1 c2
   simp only [structStep, c1, c2]
@@ -268,11 +268,10 @@ theorem judgeEfun_events (sc : Scripts) (cs : List Cmd) : judgeEfun (events sc c
   rw [key cs {}]
   rfl
 
-/-- the part of the top theorem that is proved: the clause oracles for `twice` / `outside` / `crash` / `malformed`
-    and for `efun` accept every trace of the model; what `judgeEv` can still report on a model trace are only the
-    data clauses (`starved`, `fifo`, `idleWait`), which the model-level theorems `no_starvation`,
-    `loop_bound_sufficient`, `per_user_fifo` carry. -/
-theorem judgeEv_events_eq_data (sc : Scripts) (cs : List Cmd) : judgeEv (events sc cs) = judgeData (events sc cs) := by
+/-- the part of the top theorem proved here: the clause oracles for `twice` / `outside` / `crash` / `malformed`
+    and for `efun` accept every trace of the model -/
+theorem judgeEv_events_eq_data (sc : Scripts) (cs : List Cmd) :
+    judgeEv (events sc cs) = judgeFifo (events sc cs) ++ judgeLive (events sc cs) := by
   unfold judgeEv
   rw [judgeStruct_events, judgeEfun_events]
   rfl
